@@ -420,6 +420,29 @@ class Model(object):
     def op_item_combine(self, s, t, _t):
         return self.expect((self.usable(s)["value"] * 3 + self.usable(t)["value"],))
 
+    def op_item_add_all(self, s, n, _t):
+        return self.expect((self.usable(s)["value"] + sum(range(1, n + 1)),))
+
+    def op_bad_item_add_all(self, s, _b, _t):
+        # Python: a method call whose list argument has a wrongly typed element
+        self.py_only()
+        self.usable(s)
+        return self.expect(None)
+
+    def op_item_assoc(self, s, _b, _t):
+        # Fortran: the generated `associated` method of the handle
+        if self.driver != "f":
+            raise Invalid("fortran only")
+        hd = self.handle(s)
+        return self.expect((0 if hd["released"] else 1,))
+
+    def op_arr_sum_d(self, n, _b, _t):
+        return self.expect((int(sum(0.5 * i for i in range(1, n + 1)) * 2) + 1000 * n,))
+
+    def op_bad_arr_sum_d(self, _a, _b, _t):
+        self.py_only()
+        return self.expect(None)
+
     def op_pass_item(self, s, _b, _t):
         # by-value argument: the wrapper passes a copy; the copy lives only during the call
         return self.expect((self.usable(s)["value"] + 5,))
@@ -787,7 +810,7 @@ OPS_COMMON = ["item_default", "item_val", "item_delete", "item_value", "item_set
               "make_item", "borrow_item", "default_item", "copy_item", "use_item", "sum_items", "assign",
               "make_box", "box_new", "box_value",
               "hi_new", "hd_new", "hi_get", "hd_get", "hi_put", "hd_put", "hi_delete", "hd_delete", "arr_weights",
-              "pt_sum", "pt_out", "pt_scale", "str_final",
+              "pt_sum", "pt_out", "pt_scale", "str_final", "item_add_all", "arr_sum_d",
               "str_ref", "str_val", "str_val2", "str_val3", "str_owned", "str_lib", "str_in", "str_out", "str_inout",
               "char_out", "char_ret", "char_inout",
               "vec_sum", "vec_iota", "vec_inc", "vec_alloc", "vec_ret", "vec_str_count",
@@ -836,8 +859,16 @@ def gen_op(rng, model, enabled, uniq):
         return [name, s]
     if name == "vec_dot":
         return [name, lengths(rng), lengths(rng)]
-    if name == "pass_item":
+    if name in ("pass_item", "item_assoc"):
         return [name, s]
+    if name == "item_add_all":
+        return [name, s, lengths(rng)]
+    if name == "bad_item_add_all":
+        return [name, s, rng.randrange(12)]
+    if name == "arr_sum_d":
+        return [name, lengths(rng)]
+    if name == "bad_arr_sum_d":
+        return [name, rng.choice([1, 3, 6]), rng.randrange(12)]
     if name in ("item_twin", "sum_items", "assign", "item_combine"):
         return [name, s, t]
     if name in ("str_ref", "str_lib", "arr_lib"):
@@ -941,10 +972,12 @@ LEAKABLE = ["item_value", "item_label", "use_item", "sum_items", "item_combine",
             "arr_lib", "arr_sum", "arr_fill_out", "char_arr", "bad_vec_sum", "bad_arg", "bad_arr_sum",
             "hi_get", "hd_get", "arr_weights", "bad_arr_weights", "char_arr_none", "bad_char_arr",
             "pt_sum", "pt_out", "pt_scale", "pt_tmp", "ar_tmp", "ar_total", "ar_get_vals", "ar_get_name", "ar_set_vals",
-            "ar_set_name", "ar_bad_name", "ar_bad_vals", "char_arr_two", "bad_char_arr_two", "arr_in_out", "bad_arr_in_out"]
+            "ar_set_name", "ar_bad_name", "ar_bad_vals", "char_arr_two", "bad_char_arr_two", "arr_in_out", "bad_arr_in_out",
+            "item_add_all", "bad_item_add_all", "arr_sum_d", "bad_arr_sum_d"]
 PY_ONLY = ["box_delete", "bad_vec_sum", "bad_arg", "nomem", "bad_arr_sum", "bad_arr_weights", "char_arr_none", "bad_char_arr",
            "ar_new", "ar_set_vals", "ar_set_name", "ar_total", "ar_get_vals", "ar_get_name", "ar_drop", "ar_tmp", "pt_tmp",
-           "ar_bad_name", "ar_bad_vals", "char_arr_two", "bad_char_arr_two", "arr_in_out", "bad_arr_in_out"] + ["leak_" + n for n in LEAKABLE]
+           "ar_bad_name", "ar_bad_vals", "char_arr_two", "bad_char_arr_two", "arr_in_out", "bad_arr_in_out",
+           "bad_item_add_all", "bad_arr_sum_d"] + ["leak_" + n for n in LEAKABLE]
 # char_inout: the Python wrapper hands the str object's own UTF-8 buffer to the library, which
 # upper-cases it in place and thereby corrupts interned strings of the interpreter (a C03 defect;
 # it would make later *values* wrong, so the op is not generated for Python)
@@ -989,6 +1022,8 @@ OP_NEEDS = {
 for _n in ("item_default", "item_val", "item_delete", "item_value", "item_set", "item_label", "item_twin", "assign",
            "item_release", "item_combine"):
     OP_NEEDS[_n] = _ITEM
+OP_NEEDS["item_add_all"] = OP_NEEDS["bad_item_add_all"] = OP_NEEDS["item_assoc"] = ("Item",)
+OP_NEEDS["arr_sum_d"] = OP_NEEDS["bad_arr_sum_d"] = ("arrSumD",)
 OP_NEEDS["char_arr_two"] = OP_NEEDS["bad_char_arr_two"] = ("charArrTwo",)
 OP_NEEDS["arr_in_out"] = OP_NEEDS["bad_arr_in_out"] = ("arrInOut",)
 for _n in ("ar_new", "ar_set_vals", "ar_set_name", "ar_total", "ar_get_vals", "ar_get_name", "ar_drop", "ar_tmp",
@@ -1029,10 +1064,12 @@ def targeted_op(rng, m, enabled, uniq):
             continue
         o = m.objs[hd["oid"]]
         if hd["released"]:
-            cands += [["item_delete", s], ["item_release", s], ["make_item", s, uniq()], ["borrow_item", s]]
+            cands += [["item_delete", s], ["item_release", s], ["make_item", s, uniq()], ["borrow_item", s],
+                      ["item_assoc", s]]
         elif o["alive"]:
             cands += [["item_delete", s], ["item_release", s], ["item_value", s], ["item_label", s],
-                      ["use_item", s], ["pass_item", s], ["item_twin", s, rng.randrange(NH)],
+                      ["use_item", s], ["pass_item", s], ["item_add_all", s, lengths(rng)], ["item_assoc", s],
+                      ["bad_item_add_all", s, rng.randrange(12)], ["item_twin", s, rng.randrange(NH)],
                       ["assign", s, rng.randrange(NH)], ["item_combine", s, s], ["sum_items", s, s],
                       ["item_set", s, uniq()], ["copy_item", s, uniq()], ["default_item", s], ["ref_item", s]]
     for s, hd in enumerate(m.bx):
